@@ -16,8 +16,8 @@ import PromModel.Ingest.Relabel
                                          joined source value, Go's `Regex.MatchString(val)`,
                                          labels in `Range` order afterwards
     process
-        out: `keep <listing>` | `drop <listing>`   ProcessBuilder over all valid rules on a fresh
-                                         builder, then `Labels()`
+        out: `keep <listing>` | `drop`   ProcessBuilder over all valid rules on a fresh builder, then
+                                         `Labels()` (a dropped target's labels are not observable)
     rx <pattern> <string> <template>
         out: `nomatch` | `match <g0>,<g1>,… names=<n0>,<n1>,… exp=<hex>`
                                          FindStringSubmatch / SubexpNames / ExpandString of
@@ -118,7 +118,7 @@ def stepModel (st : St) (line : String) : St × String :=
           s!"valid {if res.1 then "keep" else "drop"} val={hexEnc val} m={if m then 1 else 0} {renderListing res.2.range}")
   | ["process"] =>
     let res := process st.cfgs.reverse (Builder.new st.base)
-    (st, (if res.1 then "keep " else "drop ") ++ renderListing res.2.labels)
+    (st, if res.1 then "keep " ++ renderListing res.2.labels else "drop")
   | ["rx", p, s, t] =>
     match hexDec? p, hexDec? s, hexDec? t with
     | some p, some s, some t => (st, rxOut p s t)
@@ -265,6 +265,8 @@ def judge (ops outs : List String) : String :=
           | _ => s!"violation unparsable op={k} out={out}"
       | ["process"] =>
         match toks out with
+        | ["drop"] =>
+          if st.anyDrop then go st ops outs else s!"violation process-fold-decision op={k} got=drop"
         | [dec, l] =>
           match parseListing? l with
           | none => s!"violation unparsable op={k}"
